@@ -264,7 +264,8 @@ def cli_apply(content, defect, pick=None):
     if defect == "both-bases":
         if content.get("basis") != "mass":
             return None
-        return slha.with_entry(c, "MINPAR", 11, 0.7)
+        # any single quartic coupling lambda_1..5 next to the mass-basis input makes the basis undecidable
+        return slha.with_entry(c, "MINPAR", 11 + (pick or 0) % 5, 0.7 if (pick or 0) % 2 else -0.3)
     if defect == "neither-basis":
         if content.get("basis") != "gauge":
             return None
@@ -386,13 +387,13 @@ def prop_cli(case):
 
 def subchecks(ctx):
     return [
-        Sub("mssm-api", mssm_case(), prop_mssm_api, {"quick": 250, "thorough": 6000}, nontrivial=lambda c: True,
+        Sub("mssm-api", mssm_case(), prop_mssm_api, {"quick": 500, "thorough": 6000}, nontrivial=lambda c: True,
             classes=lambda c: ["defects:%d" % len(c["defects"]), "force:%d" % int(c["force"])] + ["d:" + d for d in c["defects"]],
             rule="on-shell point x defects x force-output through the C++ API"),
-        Sub("thdm-api", thdm_case(), prop_thdm_api, {"quick": 250, "thorough": 6000}, nontrivial=lambda c: True,
+        Sub("thdm-api", thdm_case(), prop_thdm_api, {"quick": 500, "thorough": 6000}, nontrivial=lambda c: True,
             classes=lambda c: ["defects:%d" % len(c["defects"]), "force:%d" % int(c["force"])] + ["d:" + d for d in c["defects"]],
             rule="THDM mass-basis point x defects x force-output through the C++ API"),
-        Sub("program", cli_case(), prop_cli, {"quick": 120, "thorough": 4000}, nontrivial=lambda c: True,
+        Sub("program", cli_case(), prop_cli, {"quick": 400, "thorough": 4000}, nontrivial=lambda c: True,
             classes=lambda c: ["kind:" + c["content"]["kind"], "force:%d" % int(c["force"]), "fmt:%d" % c["fmt"]] + ["d:" + d for d in c["defects"]] + ["stress:" + d for d in c.get("stress", [])],
             rule="input file x defects x force-output x output format through the program"),
     ]
